@@ -244,6 +244,17 @@ func Dump(db *sql.DB) (*Catalog, error) {
 		sort.Slice(t.FKs, func(i, j int) bool { return fmt.Sprint(t.FKs[i]) < fmt.Sprint(t.FKs[j]) })
 		c.Tables[m.Name] = t
 	}
+	// a foreign key declared without parent columns (REFERENCES p) points at the parent's primary key
+	for _, t := range c.Tables {
+		for i := range t.FKs {
+			for k, rc := range t.FKs[i].RefCols {
+				if p := c.Tables[t.FKs[i].RefTable]; rc == "" && p != nil && k < len(p.PK) {
+					t.FKs[i].RefCols[k] = p.PK[k]
+				}
+			}
+		}
+		sort.Slice(t.FKs, func(i, j int) bool { return fmt.Sprint(t.FKs[i]) < fmt.Sprint(t.FKs[j]) })
+	}
 	return c, nil
 }
 
